@@ -11,8 +11,9 @@ THEOREMS = ["closed_form_solves_ode", "closed_form_initial", "ode_solution_uniqu
 EXTRA_PROPS = {"Props.C01b": ["fl_dot_error", "decay_eval_error"],
                "Props.C01c": ["rnd64_std_model", "pf_mul_finite", "pf_add_finite", "bq_of_float_value", "pf_yhat_refines"],
                "Props.C01d": ["default_round_certificate", "lambda_close_sound", "float_decay_error", "default_float_decay_error"],
-               "Props.C01e": ["default_float_decay_error_ancestors"]}
-REQUIRED = ["Props/C01.v", "Props/C01b.v", "Props/C01c.v", "Props/C01d.v", "Props/C01e.v", "Props/C04s.v", "Model/DecayCheck.v", "Model/FloatDecay.v",
+               "Props.C01e": ["default_float_decay_error_ancestors"],
+               "Props.C01s": ["synth_float_decay_error", "synth_cum_float_error"]}
+REQUIRED = ["Props/C01.v", "Props/C01b.v", "Props/C01c.v", "Props/C01d.v", "Props/C01e.v", "Props/C01s.v", "Props/C04s.v", "Model/DecayCheck.v", "Model/FloatDecay.v",
             "Proofs/CertDefault/RoundCert.v", "Proofs/CertDefault/FloatDataCert.v"]
 TRANSLATORS = ["tr_data", "synth_dataset", "tr_data_synth", "tr_tables", "tr_pure"]
 SHAPE_KEYS = ["Inventory::decay", "AbstractInventory::_setup_decay_calc", "AbstractInventory::_perform_decay_calc",
@@ -57,6 +58,7 @@ def correspondence(ctx):
                    shard=8, ds="synth", pre=D.PRE.replace("Model.Default", "Model.Default Model.Synth"))
     import corr_floateval as FE
     FE.floateval_stream(rng, 400 if thorough else 40, streams, viol, samples)
+    FE.floateval_stream(rng, 100 if thorough else 20, streams, viol, samples, ds="synth")
     return {"streams": streams, "violations": viol, "samples": samples}
 
 
